@@ -104,6 +104,8 @@ def run(ctx):
         sig0 = dict(weights=wq if wq in ("qint4", "qint2") else ("float8" if "float8" in wq else "int8"),
                     activations="none" if aq is None else ("float8" if "float8" in aq else "int8"))
         model, shape = lifecycle.build(kind, wd)
+        if lifecycle.hostile_rows(model, r):
+            ctx.count("models_with_degenerate_rows")
         probes = [lifecycle.batch(r, shape, wd) for _ in range(2)]
         try:
             kw = dict(weights=oq.qtypes[wq])
